@@ -202,6 +202,19 @@ def op_rt(case, pm):
     return res
 
 
+def ast_depth(tree):
+    """nesting depth of a tree, computed without recursion"""
+    depth = 0
+    level = [tree]
+    while level:
+        depth += 1
+        nxt = []
+        for n in level:
+            nxt.extend(ast.iter_child_nodes(n))
+        level = nxt
+    return depth
+
+
 def op_mc(case, pm):
     """C08: compilable source => minify returns and its output compiles; unparseable => same exception type."""
     src = get_src(case)
@@ -230,7 +243,8 @@ def op_mc(case, pm):
                     'want': type(parse_exc).__name__}
         rec = isinstance(e, RuntimeError) and 'recursion' in str(e).lower()
         if rec:
-            return {'status': 'inconclusive', 'reason': 'recursion-limit'}
+            # reported with the nesting depth of the input: the check decides (known finding for deep inputs, violation for shallow ones)
+            return {'status': 'violation', 'kind': 'raised', 'exc': exc_info(e), 'ast_depth': ast_depth(tree), 'recursion_limit': sys.getrecursionlimit()}
         return {'status': 'violation', 'kind': 'raised', 'exc': exc_info(e),
                 'out': getattr(e, 'minified', '')[:400] if isinstance(getattr(e, 'minified', ''), (str, unicode)) else ''}
     if parse_exc is not None:
